@@ -321,7 +321,7 @@ def apply_op(sd, ni, op):
             return str(bool(r)).lower(), blockx_cmd(op[1], op[3], op[2])
         if kind == "scc":
             r = sd.expand_scc(find_motif_avoidant_attractors=bool(op[1]))
-            return str(bool(r)).lower(), None
+            return str(bool(r)).lower(), "SCC"
         if kind == "pnet":
             sd.node_percolated_petri_net(op[1] % n, compute=True)
             return "none", "NOP"
@@ -424,6 +424,8 @@ def _cmd_for_error(sd, ni, op, n):
         return f"EXPAND {op[1] % n}"
     if kind == "aseeds":
         return aseeds_cmd(ni, dict(sd.node_data(0)["space"]), op[1])
+    if kind == "scc":
+        return "SCC"
     if kind == "block" and not op[1]:
         return f"BLOCK {fmt(op[2])}"
     if kind == "block":
@@ -472,8 +474,9 @@ def run_plain_history(case, judge_leaves=False, literal=True):
     fails, diffs, tags = [], [], set()
     sd = make_sd(case)
     ni = common.NetInfo(sd.network)
-    lines = [ni.net_line, f"CFG {case.get('max_motifs', 100000)}", "SDINIT"]
-    expect = [("net", "OK"), ("cfg", "OK"), ("obs", dump_of(sd, ni), "init")]
+    order = sorted(ni.names)
+    lines = [ni.net_line, f"CFG {case.get('max_motifs', 100000)}", "RANKS " + " ".join(str(order.index(x)) for x in ni.names), "SDINIT"]
+    expect = [("net", "OK"), ("cfg", "OK"), ("cfg", "OK"), ("obs", dump_of(sd, ni), "init")]
     changed = 0
     mixed = False
     prev = common.dump_sd(sd, ni)
